@@ -1,12 +1,11 @@
 use crate::config::Config;
 use crate::diagnostic_emitter::MosResult;
-use fs_err::OpenOptions;
 use mos_core::errors::map_io_error;
 use mos_core::formatting::format;
 use mos_core::parser::parse_or_err;
 use mos_core::parser::source::FileSystemParsingSource;
 use mos_core::LINE_ENDING;
-use std::io::Write;
+use std::path::Path;
 
 /// Formats input file(s)
 #[derive(argh::FromArgs, PartialEq, Eq, Debug)]
@@ -20,15 +19,29 @@ pub fn format_command(cfg: &Config) -> MosResult<()> {
     for file in tree.files.keys() {
         let formatted = format(file, tree.clone(), cfg.formatting);
         let formatted = formatted.replace('\n', LINE_ENDING);
-        let mut output_file = OpenOptions::new()
-            .truncate(true)
-            .write(true)
-            .open(file)
-            .map_err(map_io_error)?;
-        output_file
-            .write_all(formatted.as_bytes())
-            .map_err(map_io_error)?;
+        write_replacing(file, formatted.as_bytes())?;
     }
 
+    Ok(())
+}
+
+/// Replaces the contents of a source file. The new contents go to a temporary file next to it, which then takes the
+/// place of the original: when anything goes wrong (a full disk, no permission) the original is still intact.
+fn write_replacing(file: &Path, contents: &[u8]) -> MosResult<()> {
+    let mut tmp_name = file.file_name().unwrap_or_default().to_os_string();
+    tmp_name.push(".mos-format.tmp");
+    let tmp = file.with_file_name(tmp_name);
+
+    let written = fs_err::write(&tmp, contents).and_then(|_| {
+        // Best effort: the replacement should be as accessible as the original was
+        if let Ok(metadata) = std::fs::metadata(file) {
+            let _ = std::fs::set_permissions(&tmp, metadata.permissions());
+        }
+        fs_err::rename(&tmp, file)
+    });
+    if let Err(e) = written {
+        let _ = fs_err::remove_file(&tmp);
+        return Err(map_io_error(e).into());
+    }
     Ok(())
 }
